@@ -753,6 +753,10 @@ PASS_THROUGH = {
     "std::iter::IntoIterator::into_iter": {"args": [0], "proj": _ident},
     # Result / Option plumbing that keeps the success payload
     "std::result::Result::<T, E>::map_err": {"args": [0], "proj": _ident},
+    # `inspect` / `inspect_err` look at the value and hand it on unchanged
+    "std::result::Result::<T, E>::inspect": {"args": [0], "proj": _ident},
+    "std::result::Result::<T, E>::inspect_err": {"args": [0], "proj": _ident},
+    "std::option::Option::<T>::inspect": {"args": [0], "proj": _ident},
     "std::result::Result::<T, E>::ok": {"args": [0], "proj": _ident},
     "std::option::Option::<T>::ok_or_else": {"args": [0], "proj": _ident},
     "std::option::Option::<T>::ok_or": {"args": [0], "proj": _ident},
